@@ -100,6 +100,16 @@ func c06Alphabet(level int) []dbx.Txn {
 		add(fmt.Sprintf("ins d%d v0 + del d%d + ins d%d (a=x again)", j+1, i+1, k+1), opInsert("T", ts[j], vals[0].row()), opDelete("T", ts[i]), opInsert("T", ts[k], dupA.row()))
 		add(fmt.Sprintf("ins d%d v0 + d%d.a:=x + del d%d", j+1, k+1, i+1), opInsert("T", ts[j], vals[0].row()), opUpdate("T", ts[k], rm.Row{"a": str("x")}), opDelete("T", ts[i]))
 	}
+	// a select between a deletion and the insertion that takes over the unique value (the select must not bring the deleted row back);
+	// a UUID inserted, deleted and inserted again in one transaction is as alive as any other row
+	for i := 0; i < len(ts); i++ {
+		j, k := (i+1)%len(ts), (i+2)%len(ts)
+		add(fmt.Sprintf("del d%d + select all + ins d%d v0", i+1, j+1), opDelete("T", ts[i]), rm.Op{Op: "select", Table: "T"}, opInsert("T", ts[j], vals[0].row()))
+		add(fmt.Sprintf("ins d%d v0; del d%d; ins d%d v0 again; ins d%d (a=x again)", j+1, j+1, j+1, k+1),
+			opInsert("T", ts[j], vals[0].row()), opDelete("T", ts[j]), opInsert("T", ts[j], vals[0].row()), opInsert("T", ts[k], dupA.row()))
+		add(fmt.Sprintf("ins d%d v0; del d%d; ins d%d v1 instead; ins d%d (a=x)", j+1, j+1, j+1, k+1),
+			opInsert("T", ts[j], vals[0].row()), opDelete("T", ts[j]), opInsert("T", ts[j], vals[1].row()), opInsert("T", ts[k], dupA.row()))
+	}
 	add("all T n+=1", rm.Op{Op: "mutate", Table: "T", Muts: []rm.Mut{{Col: "n", Mutator: "+=", Val: rm.SetOf(rm.I(1))}}})
 	add("all T n-=1", rm.Op{Op: "mutate", Table: "T", Muts: []rm.Mut{{Col: "n", Mutator: "-=", Val: rm.SetOf(rm.I(1))}}})
 	add("all T a:=x", rm.Op{Op: "update", Table: "T", Row: rm.Row{"a": str("x")}})
